@@ -566,7 +566,7 @@ KNOWN_PREDICATES = ("is_converged", "is_diverged", "isfinite", "isnan", "_plot_i
                     "dot", "norm2", "wait", "size", "at", "back", "front", "get_num_iter", "min", "max", "empty")
 
 
-def classify_literal(fn, lo, gd, value, sid, defect_obj, ctx=(), wrappers=(), methods=None):
+def classify_literal(fn, lo, gd, value, sid, defect_obj, ctx=(), wrappers=(), methods=None, info=None):
     """is the Status enumerator written in statement sid justified by the branch facts that dominate it (and by the
     conditions of the ?: operators that select it inside the statement: ctx = ((condition node id, polarity), ...))?
     -> (ok, why) ; ok None = not decidable (a dominating test goes through a predicate this rule does not model)"""
@@ -590,6 +590,8 @@ def classify_literal(fn, lo, gd, value, sid, defect_obj, ctx=(), wrappers=(), me
         else:
             guards.append((r, pol))
     texts, opaque = [], []
+    if info is not None:
+        info["guards"] = list(guards)
     for c, pol in guards:
         texts.append(("" if pol else "!") + render(c)[:60])
         if (is_call(c) and not cname(c).startswith("_apply_precond") and cname(c) not in wrappers and cname(c) not in KNOWN_PREDICATES) or c.get("k") in ("Ref", "Member", "Lambda"):
@@ -826,14 +828,34 @@ def rule_status_protocol(ck, solvers, cv):
                             continue
                         seen.add((v, org[1], org[2]))
                         nlit += 1
+                        linfo = {}
                         ok, why = classify_literal(ufn, ulo, ugd, v, org[1], defect_obj, org[2], wrappers,
                                                    {mn: [f for f in mfl if f.cls == fn.cls and f.cfg is not None][0] for mn, mfl in solvers.get(sc, {}).items()
-                                                    if [f for f in mfl if f.cls == fn.cls and f.cfg is not None] and mn not in KNOWN_PREDICATES})
+                                                    if [f for f in mfl if f.cls == fn.cls and f.cfg is not None] and mn not in KNOWN_PREDICATES}, linfo)
                         sl = (ufn.by_id(org[1]) or {}).get("l")
                         if ok is None:
                             ck.incomplete("E7.status-origin", "%s::%s [%s] line %s: %s" % (sc, un, tag, sl, why))
                         else:
                             add("literal", ok, ("[%s] %s line %s: " % (tag, un, sl)) + why, sl)
+                        if v == "success" and ok:
+                            # a convergence exit of the solver's own must honour the minimum number of iterations like _analyse_defect does
+                            gs = list(linfo.get("guards", []))
+                            if ufn is not fn:
+                                fgd = Guards(fn)
+                                for c in fn.calls():
+                                    if cname(c) == un:
+                                        gs += [(lo.resolve(g), p) for g, p in fgd.of_stmt(c["i"])]
+                            has_min = any(x.get("k") == "Member" and x.get("n") == "_min_iter" for g, p in gs for x in walk(g))
+                            opaque_g = [render(g)[:40] for g, p in gs if is_call(g) and (g.get("obj") is None or (g.get("obj") or {}).get("k") == "This") and cname(g) not in KNOWN_PREDICATES
+                                        and not cname(g).startswith("_apply_precond") and cname(g) not in wrappers]
+                            mkey = "%s::_apply_intern/literal-success" % sc
+                            if not has_min and opaque_g:
+                                ck.incomplete("E13.min-iter-guard", "%s [%s] %s line %s: guarded by %s, which this rule does not follow" % (mkey, tag, un, sl, ", ".join(opaque_g[:2])))
+                            else:
+                                perkey.setdefault(("E13.min-iter-guard", mkey), []).append((has_min, "[%s] %s line %s: %s" % (tag, un, sl,
+                                    "Status::success under a test of _min_iter" if has_min else
+                                    "literal Status::success (%s) is not guarded by the minimum-iteration test: with _min_iter = m the run can end with success after fewer than m iterations "
+                                    "(_analyse_defect returns progress while num_iter < _min_iter before it tests convergence)" % why), sl))
             # tail `return Status::undefined` that is infeasible: fine (c)
             for bid, b in fn.cfg.blocks.items():
                 for sid in b["el"]:
@@ -3842,6 +3864,74 @@ def rule_numeric_refresh(ck, solvers):
                        "the solver keeps the data of the old matrix" % ", ".join(sorted(set(state_guards))[:2])), fn.file, stmts[0].get("l"))
 
 
+def rule_recycled_state(ck, solvers):
+    """containers that a solver fills with matrix-derived vectors while iterating and keeps for the next solve (recycling)
+    are numeric state: they must not survive done_numeric()/init_numeric()"""
+    n_inst = 0
+    for sc in sorted(SOLVERS):
+        members = solvers.get(sc, {})
+        fns = members.get("_apply_intern", [])
+        if not fns:
+            continue
+        fn = fns[0]
+        methods = {}
+        for mname, mfl in members.items():
+            cand = [f for f in mfl if f.cls == fn.cls and f.cfg is not None and not f.d.get("ctor")]
+            if cand:
+                methods[mname] = cand[0]
+        helpers = {m: f for m, f in methods.items() if m not in ("init_numeric", "done_numeric", "init_symbolic", "done_symbolic", "apply", "correct", "_apply_intern")}
+        solve_fns = [methods[m] for m in ("apply", "correct", "_apply_intern") if m in methods]
+        solve_fns += [h for m, h in helpers.items() if any(cname(c) == m for f in solve_fns for c in f.calls())]
+        kept = {}          # field -> (function, push node)
+        for f in solve_fns:
+            derived, lo = matrix_derived_members(f, helpers)
+            for fld, nodes in derived.items():
+                for n in nodes:
+                    if not (n.get("k") == "MCall" and cname(n) in ("push_back", "emplace_back") and n.get("obj") is not None and base_key(objkey(lo, n["obj"])) == fld):
+                        continue
+                    if not re.match(r"^(const )?std::vector<", (f.ntype(lo.resolve(n["obj"])) or "").strip()):
+                        continue
+                    # cleared at the start of every solve / before the push in this function: a work array, not recycled state
+                    cleared = False
+                    for g in solve_fns:
+                        glo = Locals(g)
+                        for c in g.calls():
+                            if c.get("k") == "MCall" and cname(c) == "clear" and c.get("obj") is not None and base_key(objkey(glo, c["obj"])) == fld:
+                                if g is f and f.cfg.stmt_dominates(c["i"], n["i"]):
+                                    cleared = True
+                                elif g is not f and g.name in ("apply", "correct"):
+                                    cleared = True
+                    if not cleared:
+                        kept.setdefault(fld, (f, n))
+        if not kept:
+            continue
+        n_inst += 1
+        flds = sorted(kept)
+        key = "%s::recycled-state/{%s}" % (sc, ",".join(x[5:] for x in flds))
+        releasers = []
+        missing = list(flds)
+        for mname in ("done_numeric", "init_numeric"):
+            g = methods.get(mname)
+            if g is None:
+                continue
+            glo = Locals(g)
+            ok_here = []
+            for fld in flds:
+                if any(c.get("k") == "MCall" and cname(c) == "clear" and c.get("obj") is not None and base_key(objkey(glo, c["obj"])) == fld
+                       and g.cfg.must_pass(lambda q, _i=c["i"]: q.get("i") == _i)[0] for c in g.calls()):
+                    ok_here.append(fld)
+            if ok_here:
+                releasers.append("%s() clears %s" % (mname, ", ".join(x[5:] for x in ok_here)))
+            missing = [x for x in missing if x not in ok_here]
+        f0, n0 = kept[flds[0]]
+        ck.ob("E8.recycled-state", key, not missing,
+              ("%s keeps %s across solves (line %s `%s` appends vectors computed with the system matrix, nothing clears the list at the start of a solve) and neither done_numeric() nor init_numeric() "
+               "of %s releases %s: after done_numeric(); <matrix values changed>; init_numeric() the next solve recycles directions q = A_old p of the old matrix, the recursively updated defect no longer belongs "
+               "to the iterate ('success' with a large true residual)" % (sc, ", ".join(x[5:] for x in flds), n0.get("l"), render(n0)[:50], sc, ", ".join(x[5:] for x in missing))) if missing
+              else "; ".join(releasers), f0.file, n0.get("l"))
+    return n_inst
+
+
 BALANCE_SCOPE = ("PCG", "PCR", "PMR", "PCGNR", "PCGNRILU", "BiCGStab", "RBiCGStab", "GroppPCG", "PipePCG", "RGCR", "Richardson", "Chebyshev", "FGMRES", "GMRES")
 # IDRS (updates through pre-scaled difference vectors dX/dR, coefficient hidden in the vectors) and BiCGStabL
 # (residual family r_j with polynomial coefficients) do not update x and r with one explicit scalar per step.
@@ -4041,6 +4131,695 @@ def iterate_verdicts(fn, key, methods, depth=0):
             else:
                 unk.append("line %s: the iterate is handed to %s in a mutable position" % (c.get("l"), cname(c)))
     return n_upd, bad, unk
+
+
+# -------------------------------------------------------------------------------------------------
+# E8: work vectors are defined before they are read (first pass through the iteration)
+# -------------------------------------------------------------------------------------------------
+
+def alloc_only(lo, e):
+    """an expression that yields a vector with undefined contents: create_vector_*() or clone(CloneMode::Layout)"""
+    e = through_moves(lo, e)
+    if is_call(e) and cname(e).startswith("create_vector"):
+        return True
+    if e.get("k") == "MCall" and cname(e) == "clone":
+        return any(x.get("k") == "Ref" and x.get("dk") == "enum" and x.get("n") in ("Layout", "Allocate") for a in e.get("a", []) for x in walk(a))
+    return False
+
+
+class DefinedFlow:
+    """must-analysis 'this work vector received a value in this solve' on the first pass through a function: back edges are
+    removed and every loop is taken to run its body once (the check's standing assumption for the counted inner loops), the
+    iteration counter _num_iter is propagated as a constant (0 after _set_initial_defect, +1 per defect update) so that
+    first-iteration branches `if(_num_iter == 1)` are decided.  State: set of defined objects (fields at container granularity:
+    a value stored into one element defines the container - optimistic, no false alarm from index arithmetic).  A read of a
+    vector field of *this that is not defined is recorded.  Own helpers are followed (depth <= 2)."""
+
+    def __init__(self, fn, entry, methods, exempt, depth=0, shared=None, niter=None):
+        self.fn, self.methods, self.exempt, self.depth = fn, methods, exempt, depth
+        self.lo = Locals(fn)
+        self.shared = shared if shared is not None else {"reads": [], "entries": []}
+        cfg = fn.cfg
+        back = {(b, h) for b in cfg.blocks for h in cfg.succ.get(b, []) if h is not None and h in cfg.dom.get(b, ())}
+        heads = {h for b, h in back}
+        succ = {b: [x for x in cfg.succ.get(b, []) if x is not None and (b, x) not in back] for b in cfg.blocks}
+        for h in heads:
+            body = natural_loop(cfg, h)
+            outs = [x for x in succ[h] if x not in body]
+            if outs and cfg.blocks[h].get("term") in ("WhileStmt", "ForStmt"):
+                succ[h] = [x for x in succ[h] if x in body]          # the body runs once ...
+                for b, h2 in back:
+                    if h2 == h:
+                        succ[b] = succ[b] + outs                       # ... and then the loop is left
+        self.succ = succ
+        npred = {b: 0 for b in cfg.blocks}
+        reach, stack = set(), [cfg.entry]
+        while stack:
+            b = stack.pop()
+            if b in reach:
+                continue
+            reach.add(b)
+            stack.extend(succ[b])
+        for b in reach:
+            for x in succ[b]:
+                npred[x] += 1
+        self.ins = {cfg.entry: (frozenset(entry), niter)}
+        self.exit_state = None
+        pending = dict(npred)
+        order = [cfg.entry]
+        while order:
+            b = order.pop()
+            st, ni = self.ins[b]
+            st, ni = self.transfer(b, set(st), ni)
+            if b in cfg.normal_exit_preds():
+                self.exit_state = (frozenset(st), ni) if self.exit_state is None else (self.exit_state[0] & frozenset(st), ni if self.exit_state[1] == ni else None)
+            blk = cfg.blocks[b]
+            for x in succ[b]:
+                allowed = True
+                if blk.get("cond") is not None and len(cfg.succ.get(b, [])) == 2 and x in cfg.succ[b]:
+                    t = self.counter_truth(fn.by_id(blk["cond"]), ni)
+                    if t is not None and cfg.succ[b][0] != cfg.succ[b][1]:
+                        allowed = (cfg.succ[b].index(x) == 0) == t
+                if allowed:
+                    if x in self.ins:
+                        o = self.ins[x]
+                        self.ins[x] = (o[0] & frozenset(st), o[1] if o[1] == ni else None)
+                    else:
+                        self.ins[x] = (frozenset(st), ni)
+                pending[x] -= 1
+                if pending[x] == 0 and x in self.ins:
+                    order.append(x)
+
+    def counter_truth(self, c, ni):
+        if c is None or ni is None:
+            return None
+        c = self.lo.resolve(c)
+        neg = False
+        while c.get("k") == "Un" and c.get("op") == "!":
+            c, neg = self.lo.resolve(c["e"]), not neg
+        if c.get("k") != "Bin" or c.get("op") not in ("==", "!=", "<", "<=", ">", ">="):
+            return None
+        l, r = self.lo.resolve(c["lhs"]), self.lo.resolve(c["rhs"])
+
+        def val(e):
+            if e.get("k") == "Int":
+                return int(e["v"])
+            if (e.get("k") == "Member" and e.get("n") == "_num_iter") or (e.get("k") == "MCall" and cname(e) == "get_num_iter" and (e.get("obj") is None or e["obj"].get("k") == "This")):
+                return ni
+            return None
+        a, b = val(l), val(r)
+        if a is None or b is None or not any((x.get("k") == "Member" and x.get("n") == "_num_iter") or (x.get("k") == "MCall" and cname(x) == "get_num_iter") for x in (l, r)):
+            return None
+        t = {"==": a == b, "!=": a != b, "<": a < b, "<=": a <= b, ">": a > b, ">=": a >= b}[c["op"]]
+        return t != neg
+
+    def vkey(self, e):
+        """(key at container granularity, is a vector / container of vectors) of an expression"""
+        e2 = self.lo.resolve(e)
+        t = (self.fn.ntype(e2) or self.fn.ntype(e) or "").strip()
+        top = strip_targs(t)
+        if "Vector" not in t or "Matrix" in top or "Filter" in top or "shared_ptr" in top:
+            return None
+        k = objkey(self.lo, e)
+        if k.startswith("?"):
+            return None
+        return base_key(k)
+
+    def rd(self, st, e, n):
+        k = self.vkey(e)
+        if k is not None and k.startswith("this.") and k not in st and k not in self.exempt:
+            self.shared["reads"].append((n.get("l"), self.fn.name, k, render(n)[:70]))
+            st.add(k)          # report the first read only
+
+    def df(self, st, e):
+        k = self.vkey(e)
+        if k is not None:
+            st.add(k)
+
+    def transfer(self, b, st, ni):
+        fn, lo = self.fn, self.lo
+        els = [fn.by_id(sid) for sid in fn.cfg.blocks[b]["el"]]
+        for n in els:
+            if n is None:
+                continue
+            k = n.get("k")
+            if k in ("Assign", "OpCall") and as_assign(n) is not None:
+                l, r = as_assign(n)
+                kl = self.vkey(l)
+                if kl is not None:
+                    if alloc_only(lo, r):
+                        st.discard(kl)
+                    else:
+                        src = through_moves(lo, r)
+                        if src.get("k") == "MCall" and cname(src) == "clone" and src.get("obj") is not None:
+                            self.rd(st, src["obj"], n)
+                        st.add(kl)
+                continue
+            if k != "MCall":
+                continue
+            nm = cname(n)
+            obj = n.get("obj")
+            own = obj is None or obj.get("k") == "This"
+            roles = dict(zip(n.get("pn", []), n.get("a", [])))
+            if own and nm == "_set_initial_defect":
+                ni = 0
+            elif own and nm in ("_set_new_defect", "_update_defect"):
+                ni = ni + 1 if ni is not None else None
+            if own and nm in ("_set_initial_defect", "_set_new_defect", "_calc_def_norm") and n.get("a"):
+                self.rd(st, n["a"][0], n)
+                continue
+            if own and nm == "_apply_intern":
+                ent = {x for x in st if x.startswith("this.")}
+                for j, a in enumerate(n.get("a", [])):
+                    ka = self.vkey(a)
+                    if ka is not None and ka in st:
+                        ent.add("$%d" % j)
+                self.shared["entries"].append((fn.name, frozenset(ent)))
+                continue
+            if own and (nm.startswith("_apply_precond") or nm in ("_precond_l", "_precond_r")) and len(n.get("a", [])) >= 2:
+                self.rd(st, n["a"][1], n)
+                self.df(st, n["a"][0])
+                continue
+            if own and nm in self.methods and self.depth < 2 and self.methods[nm] is not fn:
+                callee = self.methods[nm]
+                trans = {}
+                for j, a in enumerate(n.get("a", [])):
+                    ka = self.vkey(a)
+                    if ka is not None:
+                        trans[ka] = "$%d" % j
+                ent = {x for x in st if x.startswith("this.")} | {trans[x] for x in st if x in trans}
+                sub = DefinedFlow(callee, ent, self.methods, self.exempt, self.depth + 1, self.shared, ni)
+                if sub.exit_state is not None:
+                    back = {v: k2 for k2, v in trans.items()}
+                    st |= {x for x in sub.exit_state[0] if x.startswith("this.")} | {back[x] for x in sub.exit_state[0] if x in back}
+                    ni = sub.exit_state[1]
+                continue
+            if nm == "apply" and "r" in roles and "x" in roles:
+                self.rd(st, roles["x"], n)
+                if "y" in roles:
+                    self.rd(st, roles["y"], n)
+                self.df(st, roles["r"])
+                continue
+            if nm in ("filter_def", "filter_cor", "filter_sol", "filter_rhs") and n.get("a"):
+                self.rd(st, n["a"][0], n)
+                continue
+            kv = self.vkey(obj) if (obj is not None and not own) else None
+            is_container = kv is not None and re.match(r"^(const )?std::vector\b", (fn.ntype(lo.resolve(obj)) or "").strip())
+            if kv is not None and not is_container:
+                vec_args = [a for a in n.get("a", []) if self.vkey(a) is not None]
+                if nm in ("copy", "scale", "component_product", "convert"):
+                    for a in vec_args:
+                        self.rd(st, a, n)
+                    st.add(kv)
+                elif nm == "axpy":
+                    self.rd(st, obj, n)
+                    for a in vec_args:
+                        self.rd(st, a, n)
+                elif nm in ("format", "format_random"):
+                    st.add(kv)
+                elif nm in ("clear",):
+                    pass
+                elif n.get("cconst"):
+                    if nm not in ("size", "local_size", "empty", "clone", "used_elements", "bytes", "name", "get_gate", "local"):
+                        self.rd(st, obj, n)
+                        for a in vec_args:
+                            self.rd(st, a, n)
+                else:
+                    st.add(kv)
+                continue
+            if is_container:
+                if nm in ("push_back", "emplace_back") and n.get("a"):
+                    src = through_moves(lo, n["a"][0])
+                    if not alloc_only(lo, src):
+                        st.add(kv)
+                continue
+            for j, a in enumerate(n.get("a", [])):
+                ka = self.vkey(a) if isinstance(a, dict) else None
+                if ka is None:
+                    continue
+                pt = fn.type(n["pt"][j]) if j < len(n.get("pt", [])) else ""
+                if ("&" in pt or "*" in pt) and "const" not in pt:
+                    st.add(ka)
+        return st, ni
+
+
+def rule_workvec_defined(ck, solvers):
+    for sc in sorted(SOLVERS):
+        members = solvers.get(sc, {})
+        fns = members.get("_apply_intern", [])
+        if not fns:
+            ck.incomplete("E8.workvec-defined", "anchor %s::_apply_intern not instantiated" % sc)
+            continue
+        fn = fns[0]
+        tag = short_inst(fn)
+        methods = {}
+        for mname, mfl in members.items():
+            cand = [f for f in mfl if f.cls == fn.cls and f.cfg is not None and not f.d.get("ctor")]
+            if cand:
+                methods[mname] = cand[0]
+        if "apply" not in methods or "correct" not in methods:
+            ck.incomplete("E8.workvec-defined", "%s [%s]: apply()/correct() of this instantiation not found" % (sc, tag))
+            continue
+        solve_names = {"apply", "correct", "_apply_intern"}
+        changed = True
+        while changed:
+            changed = False
+            for m in list(solve_names):
+                for c in methods[m].calls() if m in methods else ():
+                    if c.get("k") == "MCall" and (c.get("obj") is None or c["obj"].get("k") == "This") and cname(c) in methods and cname(c) not in solve_names \
+                            and not cname(c).startswith("init_") and not cname(c).startswith("done_"):
+                        solve_names.add(cname(c))
+                        changed = True
+        # exempt: state that is given a value outside the solve (init_*, setters), set up once under a validity flag, or recycled lists
+        exempt = set()
+        for mname, f in methods.items():
+            lo = Locals(f)
+            flag_setter = any(as_assign(n) is not None and strip(as_assign(n)[0]).get("k") == "Member" and strip(as_assign(n)[1]).get("k") == "Bool" and strip(as_assign(n)[1]).get("v") is True
+                              and "bool" in (f.ntype(strip(as_assign(n)[0])) or "") for n in f.nodes() if n.get("k") in ("Assign", "OpCall"))
+            if mname in solve_names and not flag_setter:
+                for c in f.calls():
+                    if c.get("k") == "MCall" and cname(c) in ("push_back", "emplace_back") and c.get("obj") is not None and objkey(lo, c["obj"]).startswith("this."):
+                        exempt.add(base_key(objkey(lo, c["obj"])))       # grows while solving: recycled state (E8.recycled-state), not a work vector
+                continue
+            probe = DefinedFlow(f, set(), {}, set(), depth=9)
+            if probe.exit_state is not None:
+                exempt |= {x for x in probe.exit_state[0] if x.startswith("this.")}
+            # (must-defined at the exits only; for flag-guarded set-ups every write counts)
+            if flag_setter:
+                for c in f.calls():
+                    if c.get("k") == "MCall" and c.get("obj") is not None and c["obj"].get("k") != "This" and not c.get("cconst"):
+                        kk = base_key(objkey(lo, c["obj"]))
+                        if kk.startswith("this."):
+                            exempt.add(kk)
+        helpers = {m: f for m, f in methods.items() if m in solve_names and m not in ("apply", "correct", "_apply_intern")}
+        bad, nreads = [], 0
+        for meth in ("apply", "correct"):
+            mfn = methods[meth]
+            ent0 = {"$1"} if meth == "apply" else {"$0", "$1"}
+            top = DefinedFlow(mfn, ent0, helpers, exempt)
+            for line, fname, kf, txt in top.shared["reads"]:
+                bad.append("%s() line %s `%s` reads %s" % (fname, line, txt, kf[5:]))
+            if not top.shared["entries"]:
+                ck.incomplete("E8.workvec-defined", "%s::%s [%s]: no call of _apply_intern reached" % (sc, meth, tag))
+                continue
+            for caller, ent in top.shared["entries"][:1]:
+                ent = set(ent) | {"$0"}
+                inner = DefinedFlow(fn, ent, helpers, exempt)
+                for line, fname, kf, txt in inner.shared["reads"]:
+                    bad.append("%s() line %s `%s` reads %s" % (fname, line, txt, kf[5:]))
+        bad = sorted(set(bad))
+        ck.ob("E8.workvec-defined", "%s::_apply_intern" % sc, not bad,
+              ("[%s] %s before any statement of this solve has given it a value (first pass through the iteration; init_symbolic only allocates it): the result depends on what an earlier solve - or the allocator - "
+               "left there, e.g. 0 * NaN = NaN after an aborted solve" % (tag, "; ".join(bad[:3]))) if bad else "every work vector read on the first pass through apply()/correct() -> _apply_intern has been given a value before", fn.file, fn.line)
+
+
+# -------------------------------------------------------------------------------------------------
+# E7: the vector whose norm is reported as the defect is filtered after its last unfiltered contribution
+# -------------------------------------------------------------------------------------------------
+
+FILTER_LINEAR = ("axpy", "scale", "copy")
+NORM_CALLS = ("norm2", "norm2_async", "norm2sqr")
+
+
+def may_alias(k1, k2):
+    """two keys of elements of one container: distinct integer literal indices do not alias, everything else may"""
+    if k1 == k2:
+        return True
+    if base_key(k1) != base_key(k2) or "[" not in k1 or "[" not in k2:
+        return False
+    i1, i2 = k1[k1.find("[") + 1:-1], k2[k2.find("[") + 1:-1]
+    return not (re.match(r"^\d+$", i1) and re.match(r"^\d+$", i2))
+
+
+class FilterFlow:
+    """Forward typestate analysis 'lies in the range of _system_filter.filter_def' (a linear subspace: UnitFilter zeroes the
+    constrained dofs, mean / slip filters project).  State = the set of vector objects (objkey; container elements by the text of
+    their index) that may hold an unfiltered value, with the statement that caused it; everything else is filtered
+    (optimistic for work vectors: only writes are judged, definedness before use is another rule).
+      filter_def(v): v filtered            format(0): filtered          copy/scale(x): state of x        axpy(x): v or x
+      A.apply(r, ..) / _apply_precond(z, ..) / any other mutation: unfiltered
+    Own helpers are followed with keys translated (depth <= 2); a call of _apply_intern records the state it is entered with.
+    Obligations: the vector handed to _set_initial_defect / _set_new_defect, and the vector whose 2-norm is handed to
+    _update_defect / is_converged / is_diverged (state at the point where the norm is taken), must be filtered."""
+
+    def __init__(self, fn, entry, methods, pruner_for=None, depth=0, shared=None):
+        self.fn, self.methods, self.depth = fn, methods, depth
+        self.lo = Locals(fn)
+        self.pruner_for = pruner_for
+        self.pruner = pruner_for(fn) if pruner_for else None
+        self.shared = shared if shared is not None else {"entries": [], "bad": [], "nsites": 0, "unknown": []}
+        cfg = fn.cfg
+        self.counting_norms = set()
+        for c in fn.calls():
+            if cname(c) == "_update_defect" and len(c.get("a", [])) == 1:
+                e = self.lo.resolve(c["a"][0])
+                if e.get("k") == "MCall" and cname(e) == "wait":
+                    e = self.lo.resolve(e.get("obj"))
+                if e.get("k") == "MCall" and cname(e) in NORM_CALLS:
+                    self.counting_norms.add(e["i"])
+        self.ins = {cfg.entry: dict(entry)}
+        self.norm_state = {}
+        self.exit_state = {}
+        work = [cfg.entry]
+        n = 0
+        while work and n < 4000:
+            n += 1
+            b = work.pop()
+            out = self.transfer(b, dict(self.ins[b]), False)
+            blk = cfg.blocks[b]
+            for pos, s2 in enumerate(blk.get("succ", [])):
+                if s2 is None or (self.pruner is not None and not self.pruner.edge_allowed(blk, pos)):
+                    continue
+                old = self.ins.get(s2)
+                if old is None:
+                    self.ins[s2] = dict(out)
+                    work.append(s2)
+                else:
+                    new = self.join(old, out)
+                    if new != old:
+                        self.ins[s2] = new
+                        work.append(s2)
+        first = True
+        for b in sorted(self.ins):
+            out = self.transfer(b, dict(self.ins[b]), True)
+            if b in cfg.normal_exit_preds():
+                self.exit_state = dict(out) if first else self.join(self.exit_state, out)
+                first = False
+
+    # state: key -> origin text of a possibly unfiltered value, or None = known filtered (needed for container elements, whose
+    # default is 'whatever an aliasing element key says')
+    @staticmethod
+    def join(a, b):
+        res = {}
+        for k in set(a) | set(b):
+            va, vb = a.get(k, 0), b.get(k, 0)
+            if isinstance(va, str):
+                res[k] = va
+            elif isinstance(vb, str):
+                res[k] = vb
+            elif va is None and vb is None:
+                res[k] = None
+            # known filtered on one side only: fall back to the default
+        return res
+
+    def read(self, st, k):
+        if k in st:
+            return st[k]
+        if "[" in k:
+            for k2, v in st.items():
+                if v is not None and not k2.startswith("m:") and may_alias(k, k2):
+                    return v
+        return None
+
+    def measure(self, st, kd, here, record, nm):
+        """the defect update `nm` measures vector kd here: it must have been modified since the previous measurement"""
+        stale = [v for x, v in st.items() if x.startswith("m:") and may_alias(x[2:], kd)]
+        if stale and record:
+            self.shared.setdefault("stale", []).append((here, self.fn.name, nm, kd, stale[0]))
+        st["m:" + kd] = here
+
+    def vec_key(self, e):
+        e2 = self.lo.resolve(e)
+        t = (self.fn.ntype(e2) or self.fn.ntype(e) or "").strip()
+        top = strip_targs(t)
+        if "Vector" not in t or re.match(r"^(const )?std::vector\b", t) or "Matrix" in top or "Filter" in top or "shared_ptr" in top:
+            return None
+        k = objkey(self.lo, e)
+        return None if k.startswith("?") else k
+
+    def set_state(self, st, k, origin):
+        for mk in [x for x in st if x.startswith("m:") and may_alias(x[2:], k)]:
+            del st[mk]              # modified since it was last measured
+        if origin is None:
+            if "[" in k:
+                st[k] = None            # this very element (by the text of its index) is filtered now
+            else:
+                st.pop(k, None)
+        else:
+            st[k] = origin
+            if "[" in k:
+                for k2 in [x for x, v in st.items() if v is None and x != k and may_alias(k, x)]:
+                    del st[k2]          # an element that may be the same one is no longer known to be filtered
+
+    def transfer(self, b, st, record):
+        fn, lo = self.fn, self.lo
+        for sid in fn.cfg.blocks[b]["el"]:
+            n = fn.by_id(sid)
+            if n is None:
+                continue
+            k = n.get("k")
+            # an index variable changes: element keys spelled with it denote other elements from now on
+            tgt = None
+            if k == "Un" and n.get("op") in ("++", "--"):
+                tgt = strip(n["e"])
+            elif k == "Assign":
+                tgt = strip(n["lhs"])
+            if tgt is not None and tgt.get("k") == "Ref" and tgt.get("dk") in ("local", "param"):
+                tag = "%s:%s" % (tgt.get("dk"), tgt.get("n")) if tgt.get("dk") == "local" else "$" + tgt.get("n")
+                for key in [x for x in st if "[" in x and tag in x[x.find("["):]]:
+                    if st[key] is not None and not key.startswith("m:"):
+                        st.setdefault(base_key(key) + "[?]", st[key])
+                    del st[key]
+                continue
+            if k in ("Assign", "OpCall") and as_assign(n) is not None:
+                l, r = as_assign(n)
+                kl = self.vec_key(l)
+                if kl is not None:
+                    src = through_moves(lo, r)
+                    if src.get("k") == "MCall" and cname(src) == "clone" and src.get("obj") is not None and self.vec_key(src["obj"]) is not None:
+                        self.set_state(st, kl, self.read(st, self.vec_key(src["obj"])))
+                    else:
+                        self.set_state(st, kl, "line %s `%s`" % (n.get("l"), render(n)[:50]))
+                continue
+            if k != "MCall":
+                continue
+            nm = cname(n)
+            obj = n.get("obj")
+            roles = dict(zip(n.get("pn", []), n.get("a", [])))
+            here = "line %s `%s`" % (n.get("l"), render(n)[:60])
+            own = obj is None or obj.get("k") == "This"
+            # --- measurements
+            if own and nm in ("_set_initial_defect", "_set_new_defect") and n.get("a"):
+                kd = self.vec_key(n["a"][0])
+                if record:
+                    self.shared["nsites"] += 1
+                    if kd is None:
+                        self.shared["unknown"].append("%s: the measured vector %s is not an identifiable object" % (here, render(n["a"][0])[:40]))
+                    elif self.read(st, kd) is not None:
+                        self.shared["bad"].append((n.get("l"), fn.name, nm, kd, self.read(st, kd)))
+                if kd is not None:
+                    self.measure(st, kd, here, record, nm)
+                continue
+            if own and nm in ("_update_defect", "is_converged", "is_diverged") and len(n.get("a", [])) == 1:
+                e = lo.resolve(n["a"][0])
+                if e.get("k") == "MCall" and cname(e) == "wait":
+                    e = lo.resolve(e.get("obj"))
+                if e.get("k") == "MCall" and cname(e) in NORM_CALLS and e.get("i") in self.norm_state:
+                    if record:
+                        self.shared["nsites"] += 1
+                        kd, org = self.norm_state[e["i"]]
+                        if org is not None:
+                            self.shared["bad"].append((n.get("l"), fn.name, nm, kd, org))
+                continue
+            if obj is not None and not own and nm in NORM_CALLS:
+                kv = self.vec_key(obj)
+                if kv is not None:
+                    self.norm_state[n["i"]] = (kv, self.read(st, kv))
+                    if n["i"] in self.counting_norms:
+                        self.measure(st, kv, here, record, "_update_defect")      # the norm that a defect update counts is taken here
+                continue
+            # --- the iteration entered from apply()/correct()
+            if own and nm == "_apply_intern":
+                if record:
+                    callee = self.methods.get("_apply_intern")
+                    ent = {}
+                    for key, org in st.items():
+                        if key.startswith("this.") and org is not None:
+                            ent[key] = org
+                    for j, a in enumerate(n.get("a", [])):       # (no measurement has happened yet: marks 'm:' do not exist here)
+                        ka = self.vec_key(a)
+                        if ka is not None and self.read(st, ka) is not None:
+                            ent["$%d" % j] = self.read(st, ka)
+                    self.shared["entries"].append((fn.name, ent))
+                continue
+            # --- own helpers
+            if own and nm in self.methods and nm != "_apply_intern" and self.depth < 2 and self.methods[nm] is not fn and not nm.startswith("_apply_precond") and nm not in ("_precond_l", "_precond_r"):
+                callee = self.methods[nm]
+                trans = {}
+                for j, a in enumerate(n.get("a", [])):
+                    ka = self.vec_key(a)
+                    if ka is not None:
+                        trans[ka] = "$%d" % j
+                ent = {}
+                for key, org in st.items():
+                    if org is None:
+                        continue
+                    pre, bare = ("m:", key[2:]) if key.startswith("m:") else ("", key)
+                    if bare in trans:
+                        ent[pre + trans[bare]] = org
+                    elif bare.startswith("this."):
+                        ent[key] = org
+                sub = FilterFlow(callee, ent, self.methods, self.pruner_for, self.depth + 1, self.shared if record else {"entries": [], "bad": [], "nsites": 0, "unknown": []})
+                back = {v: k2 for k2, v in trans.items()}
+                for key in [x for x in st if (x[2:] if x.startswith("m:") else x).startswith("this.") or (x[2:] if x.startswith("m:") else x) in trans]:
+                    del st[key]
+                for key, org in sub.exit_state.items():
+                    if org is None:
+                        continue
+                    pre, bare = ("m:", key[2:]) if key.startswith("m:") else ("", key)
+                    if bare in back:
+                        st[pre + back[bare]] = org
+                    elif bare.startswith("this."):
+                        st[key] = org
+                continue
+            # --- the filter
+            if nm == "filter_def" and obj is not None and "Filter" in (fn.ntype(obj) or "") and n.get("a"):
+                kv = self.vec_key(n["a"][0])
+                if kv is not None:
+                    self.set_state(st, kv, None)
+                continue
+            if nm in ("filter_cor", "filter_sol", "filter_rhs"):
+                continue
+            # --- operator / preconditioner applications
+            if nm.startswith("_apply_precond") or nm in ("_precond_l", "_precond_r"):
+                kv = self.vec_key(n["a"][0]) if n.get("a") else None
+                if kv is not None:
+                    self.set_state(st, kv, here + " (a preconditioner result)")
+                continue
+            if nm == "apply" and "r" in roles:
+                kv = self.vec_key(roles["r"])
+                if kv is not None:
+                    self.set_state(st, kv, here + " (an operator application)")
+                continue
+            # --- vector methods on a tracked receiver
+            kv = self.vec_key(obj) if (obj is not None and not own) else None
+            if kv is not None and not n.get("cconst"):
+                if nm == "format":
+                    if all(is_zero(lo, a) for a in n.get("a", [])):
+                        self.set_state(st, kv, None)
+                    else:
+                        self.set_state(st, kv, here)
+                elif nm in ("copy", "scale") and n.get("a"):
+                    kx = self.vec_key(roles.get("x", n["a"][0]))
+                    self.set_state(st, kv, (self.read(st, kx) if kx is not None else here))
+                elif nm == "axpy" and n.get("a"):
+                    kx = self.vec_key(roles.get("x", n["a"][0]))
+                    org = self.read(st, kx) if kx is not None else here
+                    if org is not None and self.read(st, kv) is None:
+                        self.set_state(st, kv, "line %s `%s` adds %s" % (n.get("l"), render(n)[:50], org if org.startswith("the ") else "the value of " + org))
+                    else:
+                        for mk in [x for x in st if x.startswith("m:") and may_alias(x[2:], kv)]:
+                            del st[mk]
+                elif nm in ("clear",):
+                    self.set_state(st, kv, None)
+                else:
+                    self.set_state(st, kv, here)
+                continue
+            # containers of vectors: push_back(x.clone()) / push_back(std::move(x))
+            if obj is not None and not own and nm in ("push_back", "emplace_back") and n.get("a") and re.match(r"^(const )?std::vector<", (fn.ntype(lo.resolve(obj)) or "").strip()):
+                src = through_moves(lo, n["a"][0])
+                if src.get("k") == "MCall" and cname(src) == "clone" and src.get("obj") is not None:
+                    src = src["obj"]
+                kx = self.vec_key(src)
+                kc = objkey(lo, obj)
+                org = self.read(st, kx) if kx is not None else here
+                if org is not None and not kc.startswith("?"):
+                    st.setdefault(kc + "[?]", org)
+                continue
+            # any other callee receiving a tracked vector mutably
+            for j, a in enumerate(n.get("a", [])):
+                ka = self.vec_key(a) if isinstance(a, dict) and strip(a).get("k") in ("Ref", "Member", "MCall", "OpCall") else None
+                if ka is None:
+                    continue
+                pt = fn.type(n["pt"][j]) if j < len(n.get("pt", [])) else ""
+                if ("&" in pt or "*" in pt) and "const" not in pt:
+                    self.set_state(st, ka, here)
+        return st
+
+
+def rule_defect_filtered(ck, solvers, facts=None):
+    import c07_dim
+    extra = base_written_fields(facts) if facts is not None else set()
+    for sc in sorted(SOLVERS):
+        members = solvers.get(sc, {})
+        fns = members.get("_apply_intern", [])
+        if not fns:
+            ck.incomplete("E7.defect-filtered", "anchor %s::_apply_intern not instantiated" % sc)
+            continue
+        bad, notes, nsites, stale_bad = [], [], 0, []
+        for fn in fns[:2]:
+            tag = short_inst(fn)
+            methods = {}
+            for mname, mfl in members.items():
+                cand = [f for f in mfl if f.cls == fn.cls and f.cfg is not None and not f.d.get("ctor")]
+                if cand:
+                    methods[mname] = cand[0]
+            if "apply" not in methods or "correct" not in methods:
+                ck.incomplete("E7.defect-filtered", "%s [%s]: apply()/correct() of this instantiation not found" % (sc, tag))
+                continue
+            # configurations of the iteration (BiCGStabL tests its preconditioning variant)
+            helpers = {"strip": strip, "objkey": objkey, "cname": cname, "Locals": Locals, "methods": {m: f for m, f in methods.items() if m not in ("apply", "correct", "_apply_intern")},
+                       "formula": formula, "term": term, "written_extra": extra, "root_fn": fn, "Paths": Paths}
+            probe = c07_dim.CfgPruner(fn, Locals(fn), helpers, assume={}).prepare()
+            free = sorted(probe.free_atoms)
+            assumes = [{}]
+            if free and len(free) <= E6_MAX_FREE:
+                enums = {f: enumerators_of(t) for f, t in probe.enum_fields.items()}
+                assumes = []
+                for bits in itertools.product((True, False), repeat=len(free)):
+                    asm = dict(zip(free, bits))
+                    if c07_dim.consistent_assume(asm, enums) is True:
+                        assumes.append(asm)
+                assumes = assumes or [{}]
+            for asm in assumes:
+                cfgtxt = (" under {%s}" % ", ".join("%s=%s" % (a, "T" if v else "F") for a, v in sorted(asm.items()))) if asm else ""
+                cache = {}
+
+                def pruner_for(f, _asm=asm, _cache=cache, _h=helpers):
+                    if not _asm:
+                        return None
+                    if f.full not in _cache:
+                        _cache[f.full] = c07_dim.CfgPruner(f, Locals(f), _h, assume=_asm).prepare()
+                    return _cache[f.full]
+                for meth in ("apply", "correct"):
+                    mfn = methods[meth]
+                    if len(mfn.params) != 2:
+                        continue
+                    # apply(): the caller's defect is filtered (it is a defect); correct(): the raw right-hand side is not
+                    ent0 = {"$0": "the iterate parameter"}
+                    if meth == "correct":
+                        ent0["$1"] = "the right-hand side %s of correct(), which is not filtered (e.g. a UnitFilter with non-zero boundary values)" % mfn.params[1]["n"]
+                    top = FilterFlow(mfn, ent0, methods, pruner_for)
+                    for u in top.shared["unknown"][:2]:
+                        ck.incomplete("E7.defect-filtered", "%s::%s [%s]: %s" % (sc, meth, tag, u))
+                    if not top.shared["entries"]:
+                        ck.incomplete("E7.defect-filtered", "%s::%s [%s]: no call of _apply_intern reached (iteration delegated in a way this rule does not follow)" % (sc, meth, tag))
+                        continue
+                    for line, fname, nm, kd, org in top.shared["bad"]:
+                        bad.append("[%s] %s() line %s: the vector %s measured by %s may be unfiltered: %s" % (tag, fname, line, kd, nm, org))
+                    for caller, ent in top.shared["entries"][:2]:
+                        ent = dict(ent)
+                        ent.setdefault("$0", "the iterate")
+                        inner = FilterFlow(fn, ent, methods, pruner_for)
+                        nsites = max(nsites, inner.shared["nsites"])
+                        for u in inner.shared["unknown"][:2]:
+                            ck.incomplete("E7.defect-filtered", "%s::_apply_intern [%s]: %s" % (sc, tag, u))
+                        for here, fname, nm, kd, prev in inner.shared.get("stale", []):
+                            stale_bad.append("[%s]%s %s: %s measures %s again although no statement has modified that vector since %s: the same defect is reported for two iterations "
+                                             "(one more iteration than progress; with min_stag_iter = 1 the run ends 'stagnated' although it does not stagnate)" % (tag, cfgtxt, fname, here, kd, prev))
+                        for line, fname, nm, kd, org in inner.shared["bad"]:
+                            bad.append("[%s] entered through %s()%s: %s line %s hands %s to %s, but that vector may lie outside the range of the system filter: its last unfiltered contribution is %s; no _system_filter.filter_def(%s) follows. "
+                                       "The reported defect then contains the constrained components (it never falls below their norm: max_iter / breakdown instead of success)" % (
+                                           tag, meth, cfgtxt, fname, line, kd, nm, org, kd.replace("this.", "")))
+                notes.append("[%s]%s %d measurement sites" % (tag, cfgtxt, nsites))
+        bad = sorted(set(bad))
+        if not bad and nsites == 0:
+            ck.incomplete("E7.defect-filtered", "%s::_apply_intern: no measurement of a defect vector (_set_initial_defect/_set_new_defect/_update_defect of a vector norm) was reached" % sc)
+            continue
+        stale_bad = sorted(set(stale_bad))
+        ck.ob("E7.defect-fresh", "%s::_apply_intern" % sc, not stale_bad, "; ".join(stale_bad[:2]) if stale_bad else
+              "every defect update measures a vector that was modified since the previous measurement (%d sites)" % nsites, fns[0].file, fns[0].line)
+        ck.ob("E7.defect-filtered", "%s::_apply_intern" % sc, not bad, "; ".join(bad[:2]) if bad else "; ".join(notes[:3]), fns[0].file, fns[0].line)
 
 
 def rule_iterate_additive(ck, solvers):
@@ -4288,10 +5067,33 @@ RULES = [
      "guarded by the derived member's own state (e.g. `if(X.empty())`), done_numeric() must release X on every path; own helpers that read the matrix are "
      "followed (their result and the members they derive are matrix-derived). Broken => history: init(); solve; "
      "done_numeric(); matrix values updated in place; init_numeric(); solve — the solver iterates with data of the old matrix."),
+    ("E8.workvec-defined", 16,
+     "must-analysis over apply()/correct() and, entered with what they define, over _apply_intern and its helpers, on the first pass through the iteration (back "
+     "edges removed, every loop body taken once, _num_iter propagated as a constant so that first-iteration branches are decided): every vector member (containers "
+     "at container granularity) that is read - operand of axpy/scale/dot/norm/apply/_apply_precond/filter - has been given a value in this solve; members given a "
+     "value by init_*/set-up functions, flag-guarded set-ups and recycled lists are exempt; create_vector/clone(Layout) only allocate. Broken => re-use: the first "
+     "operation computes with what a previous (e.g. aborted) solve or the allocator left there: 0 * NaN poisons the next solve."),
+    ("E8.recycled-state", 1,
+     "std::vector members that the solve functions (apply, correct, _apply_intern and their helpers) extend by push_back with values computed from _system_matrix "
+     "(taint analysis) and that no solve clears before use - the recycled direction lists of RGCR - are numeric state: done_numeric() or init_numeric() must clear "
+     "them on every path. Broken => history: init(); solve; done_numeric(); matrix values updated in place; init_numeric(); solve - pairs (p, q = A_old p) of the "
+     "old matrix are recycled: the run reports success on a recursively updated defect while the true residual is large."),
     ("E8.solution-defect-balance", 14,
      "in _apply_intern of 14 solvers: dataflow of the signed step lengths applied to the iterate (x.axpy(w, c)) and to the vector measured by the convergence "
      "control (r.axpy(Aw, -c)); a fresh r := rhs - A x resets. At every return that is not `Status::aborted` the two multisets cancel. Broken => input class: "
      "runs ending through that return (e.g. the BiCGStab half-step exit): the status and the reported defect belong to an iterate that was never returned."),
+    ("E7.defect-filtered", 16,
+     "typestate 'lies in the range of _system_filter.filter_def' for every vector of a solver (forward dataflow over apply()/correct() and, entered with the state "
+     "they establish, over _apply_intern; own helpers followed; one run per preconditioning variant): filter_def and format(0) make a vector filtered, copy/scale "
+     "inherit, axpy keeps it only if the added vector is filtered, operator / preconditioner applications and any other mutation make it unfiltered; the defect "
+     "argument of apply() is filtered, the right-hand side of correct() is not. Obligation: the vector handed to _set_initial_defect/_set_new_defect and the vector "
+     "whose norm is handed to _update_defect/is_converged/is_diverged is filtered at that point. Broken => input class: correct() (or solve()) with a UnitFilter "
+     "carrying non-zero Dirichlet values / any filter that changes the right-hand side: the reported defect keeps the constrained components and never meets the tolerance."),
+    ("E7.defect-fresh", 16,
+     "between two consecutive defect measurements that count an iteration (_set_initial_defect / _set_new_defect of a vector; the point where the norm handed to "
+     "_update_defect is taken) the measured vector is modified on every path (may-analysis on the same dataflow as E7.defect-filtered). Broken => the defect of one "
+     "iterate is counted twice: _num_iter runs ahead of the iterate, and with min_stag_iter = 1 (stag_rate <= 1) the run ends 'stagnated' at once although the "
+     "iteration converges."),
     ("E7.iterate-additive", 16,
      "_apply_intern is shared by apply() (x0 = 0) and correct() (x0 given): the iterate parameter is only updated by axpy; overwriting it with an operator applied "
      "to the whole iterate (x := M x) is a violation. Broken => correct() with a non-zero start vector returns T(x0 + y) instead of x0 + T(y)."),
@@ -4380,6 +5182,11 @@ RULES = [
      "(class doc: 0<delta<1 = tighter inner tolerance, delta=0 = only the exact solution stops). Two obligations per solver (diverged part / converged part of "
      "the table). Independent of nesting, negation, De Morgan, named bools. Broken => copy/paste drift of the replicated formula (tol_abs_low/tol_abs swapped, "
      "unscaled term, < for <=, guard not negated)."),
+    ("E13.min-iter-guard", 2,
+     "every literal Status::success that a solver's _apply_intern (or a Status helper of it) produces itself - the half-step convergence exits of BiCGStab and "
+     "RBiCGStab - is control-dependent on a test of _min_iter besides is_converged: _analyse_defect returns progress while num_iter < _min_iter before it tests "
+     "convergence (iterative.hpp: 'minimum number of iterations'), so an own exit without that guard ends a run early. Broken => input class: min_iter larger "
+     "than the number of iterations to convergence: success after fewer than min_iter iterations."),
     ("E13.guard-field", 2, "Status::max_iter is returned only under a test of _max_iter, Status::stagnated only under a test of _min_stag_iter/_stag_rate."),
     ("E13.status-success", 7, "status_success maps exactly {success, max_iter, stagnated} to true (one obligation per enumerator)."),
     ("E1.setter-field", 24, "each set_X(p) (and skip_defect_calc) stores its parameter into the field _X on every path (exceptions tabled with their doc)."),
@@ -4425,18 +5232,24 @@ def run(tier):
     rule_inner_criteria(ck, solvers, facts)
     rule_parallel_lists(ck, solvers)
     rule_numeric_refresh(ck, solvers)
+    rule_recycled_state(ck, solvers)
     rule_solution_defect_balance(ck, solvers, cv)
     rule_iterate_additive(ck, solvers)
+    rule_defect_filtered(ck, solvers, facts)
+    rule_workvec_defined(ck, solvers)
     rule_validity_flags(ck, solvers)
     rule_step_counters(ck, solvers)
     ck.assume("comparisons are over a total order (a<b == !(b<=a)): NaN defects are excluded by the isfinite tests that the decision tables show to come first")
     ck.assume("virtual calls resolve to the statically named callee: none of the 16 solvers overrides _set_initial_defect/_set_new_defect/_update_defect/_analyse_defect/_calc_def_norm")
     ck.assume("inner counted loops of _apply_intern run at least once (krylov_dim, l >= 1 are asserted by the constructors/setters)")
     ck.assume("oracle tables are transcriptions of the doc comments listed in ANCHORS (iterative.hpp, base.hpp); a changed anchor text is exit 2")
+    ck.assume("E7.defect-filtered: filter_def is a linear projection (UnitFilter, mean / slip filters), so its range is closed under axpy/scale/copy; the defect handed to apply() is filtered, "
+              "the right-hand side handed to correct() is not; only writes are judged (a work vector holds what this solve wrote into it)")
+    ck.assume("E8.workvec-defined: every loop body runs at least once on the first pass; a value stored into one element of a vector container defines the container")
     ck.assume("E6: non-zero numeric literals are dimensionless, 0/eps/huge are polymorphic; [A^T] = [A]; the split preconditioners of PCGNR/PCGNRILU have free scalings")
     ck.note("not decided: numerical attainment of the tolerance by the true residual, convergence to the reference solution, bitwise equality of repeated solves; "
             "E6 for GMRES, FGMRES, IDRS, BiCGStabL (Hessenberg/Givens arrays, dense small matrices, coefficient arrays seeded with the literal 1: outside the dimension engine) "
-            "and sign / dimensionless-factor errors in any recurrence; definedness of every solver temporary before use (E8); the iteration counting of the inner (F)GMRES iterations")
+            "and sign / dimensionless-factor errors in any recurrence; definedness of solver temporaries beyond the first pass through the iteration and of single container elements (E8.workvec-defined works at container granularity); the iteration counting of the inner (F)GMRES iterations")
     return ck.finish(
         "All members of the 16 iterative solver classes are instantiated by tu/c07_solvers.cpp (CSR<double,u64>+UnitFilter; Global::Matrix/Filter for the three "
         "solvers needing async reductions; thorough adds BCSR<float,u32,2,2>, blocked filters and the instantiations of basic_solver-test.cpp) and analysed on "
